@@ -543,6 +543,10 @@ fn builtin_sleep(args: Vec<Rc<Object>>) -> Result<Rc<Object>, String> {
 
     match args[0].as_ref() {
         Object::Integer(n) => {
+            // A negative count cast to u64 would sleep practically forever
+            if *n < 0 {
+                return Err(String::from("duration should not be negative"));
+            }
             thread::sleep(time::Duration::from_secs(*n as u64));
             Ok(Rc::new(Object::Null))
         }
